@@ -19,14 +19,14 @@ def HaltLast (s : Sdk) : Prop :=
 theorem C13_nested_stops_when_seen (fuel : Nat) (is : List Instruction) (line : Nat) (vars : Vars)
     (s : Sdk) (h : haltSeen s = true) :
     evalInstrsH (fuel + 1) is line vars s = (none, none, vars, s) := by
-  sorry
+  exact evalInstrsH_seen fuel is line vars s h
 
 /-- Once seen the flag stays seen: whatever a command does (including every nested
     evaluation it starts), the emit trace only grows. -/
 theorem C13_flag_stays_seen (fuel n : Nat) (is : List Instruction) (c : Cmd) (args : List Str)
     (out : Option Str) (line : Nat) (vars : Vars) (s : Sdk) (h : haltSeen s = true) :
     haltSeen (runCmdF (evalInstrsH fuel) is n c args out line vars s).2.2 = true := by
-  sorry
+  exact flow_flag_stays_seen fuel n is c args out line vars s h
 
 /-- One command invocation — with all the nested evaluation it causes: conditions that are
     commands, functions called in condition position, to any depth — never emits anything
@@ -35,7 +35,7 @@ theorem C13_flow_command_emits_nothing_after_halt (fuel n : Nat) (is : List Inst
     (args : List Str) (out : Option Str) (line : Nat) (vars : Vars) (s : Sdk)
     (h0 : haltSeen s = false) :
     HaltLast (runCmdF (evalInstrsH fuel) is n c args out line vars s).2.2 := by
-  sorry
+  exact flow_command_haltLast fuel n is c args out line vars s h0
 
 /-- Whole runs: for every program, all initial variables, and every amount of fuel, nothing is
     emitted after the `emit __halt__` that raised the flag — whether it ran at top level, in a
@@ -43,7 +43,7 @@ theorem C13_flow_command_emits_nothing_after_halt (fuel n : Nat) (is : List Inst
 theorem C13_flow_nothing_emitted_after_halt (fuel : Nat) (is : List Instruction) (vars : Vars)
     (s0 : Sdk) (h0 : haltSeen s0 = false) :
     HaltLast (interpRunH fuel is vars s0).1.st := by
-  sorry
+  exact interpRunH_haltLast fuel is vars s0 h0
 
 /-- … and such a run ends as `halted` (success) or earlier for a reason of its own, never by
     starting another top-level instruction: if the final state has seen the flag and the run
@@ -51,13 +51,88 @@ theorem C13_flow_nothing_emitted_after_halt (fuel : Nat) (is : List Instruction)
 theorem C13_flow_seen_run_is_halted (fuel : Nat) (is : List Instruction) (vars : Vars) (s0 : Sdk)
     (hseen : haltSeen (interpRunH fuel is vars s0).1.st = true)
     (hend : (interpRunH fuel is vars s0).2 = .reachedEnd) : False := by
-  sorry
+  rw [interpRunH_reachedEnd_not_seen fuel is vars s0 hend] at hseen
+  cases hseen
 
 /-- The halt-aware interpreter is the interpreter of C04 / C05 as long as nobody raises the
     flag: a run whose final state has not seen it is, step for step, the run of `interpRun`. -/
 theorem C13_flow_agrees_when_not_raised (fuel : Nat) (is : List Instruction) (vars : Vars) (s0 : Sdk)
     (h : haltSeen (interpRunH fuel is vars s0).1.st = false) :
     interpRunH fuel is vars s0 = interpRun fuel is vars s0 := by
-  sorry
+  exact interpRunH_agree fuel is vars s0 h
+
+/-! ### non-vacuity: concrete programs (parsed by the model parser, run by the model) -/
+
+def C13_progOf (t : String) : List Instruction :=
+  match parseText t.toList with
+  | .ok is => is
+  | .error _ => []
+
+/-- a function called in CONDITION position raises the flag and then tries to emit more -/
+def C13_demo : List Instruction := C13_progOf
+  "fn f\n  emit a\n  emit __halt__\n  emit b\n  return true\nend_fn\nif f\n  emit c\nend_if\nemit d\n"
+
+example : C13_demo.length = 10 := by decide +kernel
+
+/-- the halt-aware run: the nested evaluator stops right after `emit __halt__` (no `b`), the
+    `if` starts nothing (no `c`), the top-level loop returns `halted` (no `d`) -/
+example : (interpRunH 50 C13_demo [] {}).1.st.emitted = [["a".toList], haltWord] ∧
+    (interpRunH 50 C13_demo [] {}).2 = .halted := by decide +kernel
+
+/-- … whereas the poll-free interpreter of C04 / C05 runs the same program to its end -/
+example : (interpRun 50 C13_demo [] {}).1.st.emitted =
+      [["a".toList], haltWord, ["b".toList], ["c".toList], ["d".toList]] ∧
+    (interpRun 50 C13_demo [] {}).2 = .reachedEnd := by decide +kernel
+
+example : HaltLast (interpRunH 50 C13_demo [] {}).1.st :=
+  C13_flow_nothing_emitted_after_halt 50 C13_demo [] {} rfl
+
+/-- two levels down: `f` (condition of the top-level `if`) has an `if` whose condition `h`
+    raises the flag -/
+def C13_deep : List Instruction := C13_progOf
+  ("fn h\n  emit __halt__\n  emit x\n  return true\nend_fn\n" ++
+   "fn f\n  if h\n    emit y\n  end_if\n  emit z\n  return true\nend_fn\n" ++
+   "if f\n  emit c\nend_if\nemit d\n")
+
+example : (interpRunH 50 C13_deep [] {}).1.st.emitted = [haltWord] ∧
+    (interpRunH 50 C13_deep [] {}).2 = .halted := by decide +kernel
+
+example : (interpRun 50 C13_deep [] {}).1.st.emitted.length = 6 ∧
+    (interpRun 50 C13_deep [] {}).2 = .reachedEnd := by decide +kernel
+
+/-- a loop that never ends on its own is stopped at the next top-level boundary -/
+def C13_loop : List Instruction := C13_progOf
+  "while true\n  emit x\n  emit __halt__\n  emit y\nend_while\nemit z\n"
+
+example : (interpRunH 30 C13_loop [] {}).1.st.emitted = [["x".toList], haltWord] ∧
+    (interpRunH 30 C13_loop [] {}).2 = .halted := by decide +kernel
+
+example : (interpRun 30 C13_loop [] {}).2 = .outOfFuel := by decide +kernel
+
+/-- nobody raises the flag: the hypothesis of `C13_flow_agrees_when_not_raised` holds, the two
+    interpreters coincide, and the run reaches the end -/
+def C13_quiet : List Instruction := C13_progOf
+  "fn f\n  emit a\n  return true\nend_fn\nif f\n  emit c\nend_if\nemit d\n"
+
+example : haltSeen (interpRunH 50 C13_quiet [] {}).1.st = false := by decide +kernel
+
+example : interpRunH 50 C13_quiet [] {} = interpRun 50 C13_quiet [] {} :=
+  C13_flow_agrees_when_not_raised 50 C13_quiet [] {} (by decide +kernel)
+
+example : (interpRun 50 C13_quiet [] {}).1.st.emitted = [["a".toList], ["c".toList], ["d".toList]] ∧
+    (interpRun 50 C13_quiet [] {}).2 = .reachedEnd := by decide +kernel
+
+/-- the hypotheses of the first two theorems are satisfiable, and a command run on a raised
+    flag may well emit (the flag is polled between instructions, not inside one) -/
+example : haltSeen { emitted := [haltWord] } = true := by decide
+
+example : (runCmdF (evalInstrsH 3) [] 3 .emit ["b".toList] none 0 [] { emitted := [haltWord] }).2.2.emitted =
+    [haltWord, ["b".toList]] := by decide
+
+/-- `HaltLast` is not trivially true -/
+example : ¬ HaltLast { emitted := [haltWord, ["b".toList]] } := by
+  intro h
+  have := h [] [["b".toList]] rfl
+  cases this
 
 end Duck
